@@ -937,3 +937,89 @@ mod tests {
   }
 }
 
+
+// Verification hooks (off unless built with --cfg ellbur_totalmapper_verif).
+// A public scripted-driver trait adapted onto the private Driver trait, a
+// public entry to the private per-device loop, and public wrappers around the
+// two private exclusion functions. No behaviour change.
+#[cfg(ellbur_totalmapper_verif)]
+pub mod verif {
+  use super::*;
+  
+  #[derive(Debug, Clone, Copy, PartialEq, Eq)]
+  pub enum ScriptedDevice { Keyboard, Tablet }
+  
+  #[derive(Debug, Clone, PartialEq, Eq)]
+  pub enum ScriptedPollResult {
+    DeviceEvent(Vec<ScriptedDevice>),
+    TimedOut,
+    Interrupted
+  }
+  
+  #[derive(Debug, Clone, PartialEq, Eq)]
+  pub enum ScriptedNext<T> { End, Busy, One(T) }
+  
+  pub trait ScriptedDriver {
+    fn register_poll(&mut self) -> Result<(), String>;
+    fn poll(&mut self, timeout: Option<Duration>) -> Result<ScriptedPollResult, String>;
+    fn next_keyboard(&mut self) -> Result<ScriptedNext<Event>, String>;
+    // true = switch turned on, false = switch turned off
+    fn next_tablet(&mut self) -> Result<ScriptedNext<bool>, String>;
+    fn send(&mut self, evs: &Vec<Event>) -> Result<(), String>;
+  }
+  
+  struct Adapter<'a, D: ScriptedDriver> { d: &'a mut D }
+  
+  impl<'a, D: ScriptedDriver> Driver for Adapter<'a, D> {
+    type PollRegistry = ();
+    
+    fn register_poll(&mut self) -> Result<(), String> {
+      self.d.register_poll()
+    }
+    
+    fn poll(&mut self, _registry: &mut (), timeout: Option<Duration>) -> Result<PollResult, String> {
+      Ok(match self.d.poll(timeout)? {
+        ScriptedPollResult::DeviceEvent(devs) => PollResult::DeviceEvent(devs.into_iter().map(|d| match d {
+          ScriptedDevice::Keyboard => Device::Keyboard,
+          ScriptedDevice::Tablet => Device::Tablet
+        }).collect()),
+        ScriptedPollResult::TimedOut => PollResult::TimedOut,
+        ScriptedPollResult::Interrupted => PollResult::Interrupted
+      })
+    }
+    
+    fn next_keyboard(&mut self) -> Result<Next<Event>, String> {
+      Ok(match self.d.next_keyboard()? {
+        ScriptedNext::End => Next::End,
+        ScriptedNext::Busy => Next::Busy,
+        ScriptedNext::One(ev) => Next::One(ev)
+      })
+    }
+    
+    fn next_tablet(&mut self) -> Result<Next<TableModeEvent>, String> {
+      Ok(match self.d.next_tablet()? {
+        ScriptedNext::End => Next::End,
+        ScriptedNext::Busy => Next::Busy,
+        ScriptedNext::One(true) => Next::One(On),
+        ScriptedNext::One(false) => Next::One(Off)
+      })
+    }
+    
+    fn send(&mut self, evs: &Vec<Event>) -> Result<(), String> {
+      self.d.send(evs)
+    }
+  }
+  
+  pub fn run_one_device<D: ScriptedDriver>(driver: &mut D, layout: Layout, verbose: bool) -> Result<(), String> {
+    do_remapping_loop_one_device(&mut Adapter { d: driver }, layout, verbose)
+  }
+  
+  // (device, excluded) in input order
+  pub fn flag_excluded_keyboards(devices: Vec<ExtractedKeyboard>, excludes: &[&str]) -> Vec<(ExtractedKeyboard, bool)> {
+    flag_excluded(devices, excludes).into_iter().map(|d| (d.extracted_keyboard, d.excluded)).collect()
+  }
+  
+  pub fn flag_excluded_devices(devices: Vec<ExtractedInputDevice>, excludes: &[&str]) -> Vec<(ExtractedInputDevice, bool)> {
+    flag_excluded_input_devices(devices, excludes).into_iter().map(|d| (d.extracted_keyboard, d.excluded)).collect()
+  }
+}
